@@ -9,12 +9,15 @@
   The counter the encoder reports always equals that of the last frame it emitted.
 -/
 import AsamCmp.EncHist
+import AsamCmp.Lemmas.EncHist
 namespace AsamCmp
 
 /-- bytes 0..7 of a serialised frame are its header fields, big-endian, at the layout's offsets -/
 theorem C09_header_bytes (min : Nat) (f : EFrame) :
     (EFrame.bytes min f).take 8 = frameHeader f.ver f.dev f.mt f.stream f.seq := by
-  sorry
+  have hl : (frameHeader f.ver f.dev f.mt f.stream f.seq).length = 8 := by simp [frameHeader]
+  simp only [EFrame.bytes, List.append_assoc]
+  exact List.take_left' hl
 
 /-- one encode call from an idle encoder: identity, counters, message type and version of
     every frame, and the counter reported afterwards -/
@@ -25,14 +28,37 @@ theorem C09_encode (e : Enc) (batch : List Packet) (c : Ctx) (hidle : e.Idle) :
     (∀ i (h : i < r.2.length), r.2[i].seq = (e.seqc + i + 1) % 65536 ∧ r.2[i].dev = e.dev ∧ r.2[i].stream = e.stream) ∧
     (∀ f ∈ r.2, ∀ m ∈ f.msgs, m.pkt.mt = f.mt) ∧
     (∀ v, (∀ p ∈ batch, p.version = v) → ∀ f ∈ r.2, f.ver = v % 256) := by
-  sorry
+  obtain ⟨-, -, -, hq⟩ := hidle
+  have hinv := encState_inv e batch c hq
+  have hcur := Enc.closeLast_cur
+    (((List.range batch.length).zip batch).foldl (putPacket c)
+      { e with closed := [], cur := none, tmpl := none })
+  change (e.encState batch c).cur = none at hcur
+  rw [encode_eq]
+  generalize e.encState batch c = s at hinv hcur
+  have hs := hinv.seqc
+  simp only [hcur, Option.isSome_none] at hs
+  refine ⟨⟨rfl, rfl, rfl, ?_⟩, hinv.hdev, hinv.hstream, ?_, ?_, ?_, ?_⟩
+  · show s.seqc < 65536
+    omega
+  · show s.seqc = _
+    rw [hs]; simp
+  · intro i hi
+    have hf := hinv.cfr _ (List.getElem_mem hi)
+    exact ⟨hinv.cseq i hi, hf.hdev, hf.hstream⟩
+  · intro f hf
+    exact (hinv.cfr f hf).hmt
+  · intro v hv f hf
+    obtain ⟨p, hp, hpv⟩ := (hinv.cfr f hf).hver
+    rw [hpv, hv p hp]
 
 /-- the setters and restart: idle again, counter 0, ids as configured -/
 theorem C09_config (e : Enc) (hidle : e.Idle) (d : Nat) :
     (e.setDevice d).Idle ∧ (e.setDevice d).seqc = 0 ∧ (e.setDevice d).dev = d % 65536 ∧ (e.setDevice d).stream = e.stream ∧
     (e.setStream d).Idle ∧ (e.setStream d).seqc = 0 ∧ (e.setStream d).stream = d % 256 ∧ (e.setStream d).dev = e.dev ∧
     e.restart.Idle ∧ e.restart.seqc = 0 ∧ e.restart.dev = e.dev ∧ e.restart.stream = e.stream := by
-  sorry
+  obtain ⟨h1, h2, h3, -⟩ := hidle
+  simp [Enc.setDevice, Enc.setStream, Enc.restart, Enc.Idle, h1, h2, h3]
 
 /-- ghost view of a history: (device id, stream id, counter of the last frame emitted since the
     last reset or 0) after the history -/
@@ -64,7 +90,35 @@ theorem C09_headers (e : Enc) (hidle : e.Idle) (ops : List EncOp) :
     C09_hist_ok (e.dev, e.stream, e.seqc) ops r.2 ∧
     r.1.Idle ∧
     (r.1.dev, r.1.stream, r.1.seqc) = (List.zip ops r.2).foldl (fun g x => ghost g x.1 x.2) (e.dev, e.stream, e.seqc) := by
-  sorry
+  induction ops generalizing e with
+  | nil => exact ⟨trivial, hidle, rfl⟩
+  | cons op ops ih =>
+    have key : C09_call_ok (e.dev, e.stream, e.seqc) op (e.apply op).2 ∧ (e.apply op).1.Idle ∧
+        ((e.apply op).1.dev, (e.apply op).1.stream, (e.apply op).1.seqc) =
+          ghost (e.dev, e.stream, e.seqc) op (e.apply op).2 := by
+      have hcfg := C09_config e hidle
+      cases op with
+      | setDev d =>
+        obtain ⟨h1, h2, h3, h4, -⟩ := hcfg d
+        refine ⟨rfl, h1, ?_⟩
+        simp only [Enc.apply, ghost, h2, h3, h4]
+      | setStream d =>
+        obtain ⟨-, -, -, -, h1, h2, h3, h4, -⟩ := hcfg d
+        refine ⟨rfl, h1, ?_⟩
+        simp only [Enc.apply, ghost, h2, h3, h4]
+      | restart =>
+        obtain ⟨-, -, -, -, -, -, -, -, h1, h2, h3, h4⟩ := hcfg 0
+        refine ⟨rfl, h1, ?_⟩
+        simp only [Enc.apply, ghost, h2, h3, h4]
+      | encode b c =>
+        obtain ⟨h1, h2, h3, h4, h5, h6, h7⟩ := C09_encode e b c hidle
+        refine ⟨⟨h5, h6, h7⟩, h1, ?_⟩
+        simp only [Enc.apply, ghost, h2, h3, h4]
+    obtain ⟨h1, h2, h3⟩ := key
+    have h := ih (e.apply op).1 h2
+    rw [h3] at h
+    simp only [Enc.runOps, List.zip_cons_cons, List.foldl_cons, C09_hist_ok]
+    exact ⟨⟨h1, h.1⟩, h.2.1, h.2.2⟩
 
 /-- non-vacuity: a freshly constructed encoder is idle -/
 example : (Enc.fresh 5 7).Idle := by simp [Enc.fresh, Enc.Idle]
